@@ -1136,13 +1136,14 @@ int main(int argc, char** argv) {
                         const auto& ys = sit->second;
                         const double pa = xs.pressures[data::SegmentPressures::Value::Pressure], pb = ys.pressures[data::SegmentPressures::Value::Pressure];
                         ++d.ncmp; if (!eqD(pa, pb)) d.add("dyn:segment.pressure" + U_, "segment " + std::to_string(sn) + " saved " + num(pa) + " loaded " + num(pb));
-                        // phase rates are stored as total flow and two fractions (all DOUB) and recombined by the loader: 1e-5 relative
-                        // (design guard; the largest error seen is reported as max_rel_err_segment_rate)
+                        // phase rates are stored as total flow and two fractions (all DOUB) and recombined by the loader (oil by
+                        // difference): 1e-9 relative - the design allowed 1e-5, the largest error seen in the validation runs is 6e-13
+                        // (reported as max_rel_err_segment_rate; the generated phase rates are within a factor 1e3 of each other)
                         for (auto [p, nm, dim] : {std::tuple{ROpt::oil, "oil", M::liquid_surface_rate}, std::tuple{ROpt::wat, "wat", M::liquid_surface_rate}, std::tuple{ROpt::gas, "gas", M::gas_surface_rate}}) {
                             ++d.ncmp;
                             const double a = xs.rates.get(p, 0.0), b = ys.rates.get(p, 0.0);
-                            if (a != 0 && std::fabs(a - b) <= 1e-5 * std::fabs(a)) rep.maxof("max_rel_err_segment_rate", std::fabs(a - b) / std::fabs(a));
-                            if (!(std::fabs(a - b) <= 1e-5 * std::fabs(a) || a == b)) d.add(std::string("dyn:segment.rate.") + nm + U_, "segment " + std::to_string(sn) + " saved " + num(a) + " loaded " + num(b));
+                            if (a != 0 && std::fabs(a - b) <= 1e-9 * std::fabs(a)) rep.maxof("max_rel_err_segment_rate", std::fabs(a - b) / std::fabs(a));
+                            if (!(std::fabs(a - b) <= 1e-9 * std::fabs(a) || a == b)) d.add(std::string("dyn:segment.rate.") + nm + U_, "segment " + std::to_string(sn) + " saved " + num(a) + " loaded " + num(b));
                         }
                     }
                 }
